@@ -40,7 +40,40 @@ def codepage_wiring(vals):
     return {"codepage_id": cid, "replay_args": ["codepage", str(cid)]}
 
 
+def c13_logic_ops(vals):
+    a, i = _scalar(vals, 0)
+    b, _ = _scalar(vals, i)
+    return {"a": a, "b": b, "replay_args": ["logic", a, b]}
+
+
+def lang_tag_matches_table(vals):
+    code = _u(vals[0])
+    return {"code": code, "replay_args": ["lang", "code", str(code)]}
+
+
+def lang_unknown_is_und(vals):
+    return lang_tag_matches_table(vals)
+
+
+# harnesses over fixed tags carry no symbolic input: the witness is the list of tags itself,
+# replayed one by one (the first that misbehaves is reported)
+FIXED_TAGS = {
+    "lang_from_tag_en": [("bogus", "en-QQ", 9), ("tag", "en-US", 1033), ("tag", "en", 9)],
+    "lang_from_tag_fr": [("bogus", "fr-QQ", 12), ("tag", "fr-CA", 3084)],
+    "lang_from_tag_unknown": [("tag", "qq", 0), ("tag", "qq-US", 0)],
+    "lang_from_tag_prefix": [("tag", "arn", 0x7a), ("tag", "enx", 0)],
+    "lang_from_tag_ar_de": [("bogus", "ar-QQ", 1), ("bogus", "de-QQ", 7), ("tag", "de-DE", 1031)],
+    "lang_from_tag_es_zh_ja": [("bogus", "es-QQ", 10), ("bogus", "zh-QQ", 4), ("tag", "ja-JP", 1041)],
+}
+
+
+def fixed_tag_replays(harness):
+    return [["lang", k, t, str(v)] for (k, t, v) in FIXED_TAGS.get(harness, [])]
+
+
 def decode(harness, vals):
+    if harness in FIXED_TAGS:
+        return {"fixed_inputs": FIXED_TAGS[harness], "replay_args_list": fixed_tag_replays(harness)}
     f = globals().get(harness)
     if f is None:
         return {"raw_concrete_vals": vals}
